@@ -19,7 +19,7 @@ ASSUMPTIONS = ["the slew limit per sample is v_per_sec*fs in data units (the fun
                "limit' case is not asserted (property: exceed; code: >=)",
                "exact-zero of the mute on a flagged sample is asserted to 1e-9 (FFT-based convolution may leave 1e-16)"]
 REQUIRED = {"contract:saturation_post": 300, "flags_compared": 300, "mute_zero_checked": 100, "same_flags_same_mute": 20,
-            "boundary_at_threshold": 50, "reader_ranges_checked": 16, "pipeline_runs": 2, "slew_only_twins": 20, "arrays_shorter_than_taper": 10, "pipeline_subset_runs": 2}
+            "boundary_at_threshold": 50, "reader_ranges_checked": 16, "pipeline_runs": 2, "slew_only_twins": 20, "arrays_shorter_than_taper": 10, "pipeline_subset_runs": 2, "long_arrays": 3, "long_array_slew_flags": 30}
 CASE_TIMEOUT = 120.0
 
 _VIOL = []
@@ -32,6 +32,7 @@ def gen_cases(seed, tier):
     cases += [{"cls": "mute-shapes", "seed": seed * 10000 + i, "n": 10, "_w": 1} for i in range(n // 2)]
     cases += [{"cls": "reader-range", "seed": seed * 10000 + i, "n": 4, "_w": 2} for i in range(max(8, n // 20))]
     cases += [{"cls": "pipeline", "seed": seed * 10000 + i, "_w": 12} for i in range(2 if tier == "quick" else 24)]
+    cases += [{"cls": "long", "seed": seed * 10000 + i, "_w": 3} for i in range(3 if tier == "quick" else 30)]
     return cases
 
 
@@ -286,6 +287,43 @@ def run_case(case):
     rng = rng_for(case)
     nt = 0
     sigs = set()
+    if case["cls"] == "long":
+        # whole processing batches (tens of thousands of samples): slew-only events (a step on every channel, far below full scale) placed just before / on /
+        # after every power-of-two sample count and at random places; the rule does not know where in the array a sample sits
+        ns = int(rng.choice([20000, 40000, 66000]))
+        nc = int(rng.choice([4, 8, 16]))
+        fs = 30000.0
+        x = rng.standard_normal((nc, ns)) * 1e-6
+        pos = sorted(set([int(p_ + d_) for p_ in (1024, 4096, 8192, 16384, 32768, 49152, 65536) for d_ in (-2, -1, 0, 1) if 2 < p_ + d_ < ns - 2]
+                         + [int(v) for v in rng.integers(5, ns - 5, 12)]))
+        pos = [p_ for i_, p_ in enumerate(pos) if i_ == 0 or p_ - pos[i_ - 1] >= 1]
+        level = np.zeros(ns)
+        for k_, p_ in enumerate(pos):
+            level[p_:] += (1 if k_ % 2 == 0 else -1) * 100e-6          # a 100 uV step between samples p-1 and p
+        x = x + level[None, :]
+        v_per_sec = 50e-6 / fs                                           # the slew limit in the unit the function compares with (diff / fs): 50 uV per sample
+        try:
+            flags, mute = V.saturation(x, 1.0, v_per_sec=v_per_sec, fs=fs, proportion=0.5)
+            ref = reference_flags(x, 1.0, v_per_sec, fs, 0.5)
+            res.count("long_arrays")
+            res.count("long_array_slew_flags", int(ref.sum()))
+            bad = np.flatnonzero(np.asarray(flags, bool) != ref)
+            res.check(bad.size == 0, "saturation:flags:long-array", f"nc={nc} ns={ns}: flags differ from the rule at samples {bad[:8].tolist()} (steps between p-1 and p for p in {pos[:10]}..)",
+                      counter="flags_compared")
+            res.check(np.all(np.abs(np.asarray(mute)[ref]) <= 1e-9) and np.asarray(mute).shape == (ns,), "mute:nonzero-on-flag", f"nc={nc} ns={ns}: mute not zero on the samples the rule flags")
+        except Exception as e:
+            res.exception("saturation:exception", e, f"long array nc={nc} ns={ns}")
+        for key, msg in _VIOL:
+            res.violation(key, msg)
+        _VIOL.clear()
+        M.drain_counts(res, prefix="contract:")
+        for k in ("flags_compared", "mute_zero_checked"):
+            if "contract:" + k in res.observed:
+                res.observed[k] = res.observed.get(k, 0) + res.observed.pop("contract:" + k)
+        res.sig = f"long-{case['seed']}"
+        res.nontrivial = True
+        res.nt = 1
+        return res
     if case["cls"] in ("reader-range", "pipeline"):
         nt = reader_range_case(case, V, res, rng) if case["cls"] == "reader-range" else pipeline_case(case, V, res, rng)
         for key, msg in _VIOL:
